@@ -47,8 +47,10 @@ def create_build_finer_grid_fun(epsilon: float, maturity: float):
                 positions = np.nonzero(aug_dts > epsilon)[0]
             aug_jump_times = np.cumsum(aug_dts)
 
-            # without the maturity itself (nor a point that rounding puts on it)
+            # without the maturity itself -- the last point, whichever side of the maturity rounding puts it -- nor a
+            # point that rounding puts on it
             before_maturity = aug_jump_times < maturity
+            before_maturity[-1] = False
             return (
                 aug_jump_times[before_maturity],
                 aug_fine_js[..., before_maturity],
